@@ -66,4 +66,13 @@ theorem multiprocess_eq_serial (f : Nat → Key) (cost : Nat → Nat) (redundant
 
 example : registered true (fun _ l => l.reverse) (.hashset ["sin", "+", "*"]) 5 = ["*", "+", "sin"] := by decide
 
+
+/-- the only random-number sources in the library that the seeding of `SymbolicRegressor.fit` (`np.random.seed`,
+`random.seed`) does not reach -- private generators (`default_rng`, `RandomState`, `random.Random`, OS entropy) or
+re-seeding calls -- are the `np.random.seed` calls of the benchmark definitions, which a fit never runs -/
+theorem no_private_rng :
+    (Gen.Repro.privateRngSources.all fun s =>
+      "bingo/symbolic_regression/benchmarking/".toList.isPrefixOf s.toList) = true := by
+  decide
+
 end Bingo.C17
